@@ -461,8 +461,37 @@ add('EdgeDetector', lambda c: ({'a': 1}, {'r': 1}), _ed_make, lambda c: 0, lambd
 # output toggles every n = floor(freq_in / (2 freq_out)) edges (the constructor prints the real frequency when the
 # ratio is not exact); reset clears the phase and the output.  state = (edges since last toggle, clkout)
 
+def _cd_exact(x):
+    """the frequency the user wrote: an int, or the decimal a float prints as (0.1 means one tenth, not the binary float)"""
+    from fractions import Fraction
+    return Fraction(x) if isinstance(x, int) else Fraction(repr(x))
+
+
+def _cd_ratio(c):
+    return _cd_exact(c[0]) / (2 * _cd_exact(c[1]))
+
+
 def _cd_n(c):
-    return int(c[0] / (2 * c[1]))
+    # exact rational arithmetic, never the float expression of the constructor
+    r = _cd_ratio(c)
+    return r.numerator // r.denominator
+
+
+def _cd_legal(c):
+    """ratio >= 1 and either whole or clearly fractional: a ratio within 1e-6 of an integer without being one would make the
+    expected modulus depend on rounding, which the documentation does not settle"""
+    from fractions import Fraction
+    r = _cd_ratio(c)
+    if r < 1:
+        return False
+    d = abs(r - round(r))
+    if not (d == 0 or d > 1e-6):
+        return False
+    # the documented formula evaluated on the binary doubles the caller really passes, correctly rounded (IEEE division),
+    # must land on the same integer part as the exact decimal ratio; otherwise (0.6 / (2 * 0.1) is 2.9999999999999996)
+    # the modulus is a matter of float rounding the documentation does not settle and the configuration is left out
+    qd = float(Fraction(float(c[0])) / (2 * Fraction(float(c[1]))))
+    return int(qd) == r.numerator // r.denominator
 
 
 def _cd_ports(c):
@@ -485,8 +514,16 @@ def _cd_nxt(c, s, v):
 _CD_Q = [(2, 1, 1), (4, 1, 1), (6, 1, 1), (10, 1, 1), (16, 1, 0), (5, 1, 1), (50, 5, 1), (7, 1, 0), (200, 1, 1)]
 _CD_T = [(2 * n, 1, r) for n in (1, 2, 3, 4, 5, 7, 8, 9, 16, 17, 100) for r in (0, 1)] + [(5, 1, 1), (9, 2, 1), (50, 5, 1), (115200 * 8, 115200, 1), (7, 1, 0)]
 _CD_B = [(2, 1, 1), (4, 1, 1), (6, 1, 1), (8, 1, 1), (5, 1, 1), (6, 1, 0)]
+# frequencies given as floats, with decimals that have no exact binary representation; whole and fractional true ratios
+_CD_FQ = [(50, 0.1, 1), (1, 0.1, 1), (1.0, 0.25, 0), (3, 0.3, 1), (0.6, 0.1, 1), (1, 0.2, 1), (0.7, 0.1, 0), (1, 1e-2, 1), (2.4, 0.3, 1),
+          (50e6, 2.5e6, 1), (1e3, 62.5, 0), (4.2, 0.7, 1), (0.9, 0.15, 1), (10.0, 1.0, 1), (33, 1.1, 1)]
+_CD_FT = _CD_FQ + [(fi, fo, r) for fi in (1, 3, 7, 0.9, 2.1, 12.6, 100) for fo in (0.1, 0.2, 0.3, 0.7, 1e-3, 0.35, 0.05, 1.5) for r in (0, 1)] + \
+    [(50e6, 115200 * 4.0, 1), (27e6, 2.25e6, 1), (1e6, 1e3 / 3, 1)]
+_CD_Q = [c for c in _CD_Q + _CD_FQ if _cd_legal(c)]
+_CD_T = [c for c in _CD_T + _CD_FT if _cd_legal(c) and _cd_n(c) <= 5000]
 add('ClockDivider', _cd_ports, _cd_make, lambda c: (0, 0), _cd_nxt, lambda c, s, v: {'clkout': s[1]}, _CD_Q, _CD_T,
-    _CD_B + [(20, 1, 1), (64, 1, 1)], _CD_B + [(20, 1, 1), (64, 1, 1), (10, 1, 0), (9, 2, 1), (1000, 1, 1), (4000, 1, 0)])
+    _CD_B + [(20, 1, 1), (64, 1, 1), (1, 0.1, 1), (3, 0.3, 0), (0.9, 0.15, 1)],
+    _CD_B + [(20, 1, 1), (64, 1, 1), (10, 1, 0), (9, 2, 1), (1000, 1, 1), (4000, 1, 0), (1, 0.1, 1), (3, 0.3, 0), (0.9, 0.15, 1), (50, 0.1, 1), (2.4, 0.3, 1)])
 
 
 # --------------------------------------------------------------------------- AutoReset   cfg = ()
@@ -561,15 +598,25 @@ add('SynchronousMemory', _sm_ports, _sm_make, lambda c: ((0,) * (1 << c[0]), 0),
 # as above on both ports: each read returns the pre-edge content, also when either port writes that address in the
 # same cycle.  Both ports writing the same address in one cycle is not documented -> never applied (domain).
 
+def _dp_widths(c):
+    """cfg = (aw, dw): all four data nets dw bits;  cfg = (aw, rd_a, wd_a, rd_b, wd_b): every data net has its own width
+    (the constructor only constrains the address widths).  A cell keeps the value that was written; a read port shows it
+    reduced to the width of its readdata net."""
+    if len(c) == 2:
+        return c[0], {'readdata_a': c[1], 'writedata_a': c[1], 'readdata_b': c[1], 'writedata_b': c[1]}
+    aw, ra, wa, rb, wb = c
+    return aw, {'readdata_a': ra, 'writedata_a': wa, 'readdata_b': rb, 'writedata_b': wb}
+
+
 def _dp_ports(c):
-    aw, dw = c
+    aw, dw = _dp_widths(c)
     i = {}
     for p in 'ab':
         i['read_address_' + p] = aw
         i['write_address_' + p] = aw
         i['write_' + p] = 1
-        i['writedata_' + p] = dw
-    return i, {'readdata_a': dw, 'readdata_b': dw}
+        i['writedata_' + p] = dw['writedata_' + p]
+    return i, {'readdata_a': dw['readdata_a'], 'readdata_b': dw['readdata_b']}
 
 
 def _dp_make(parent, inst, c, i, o):
@@ -600,10 +647,13 @@ def _dp_nxt(c, s, v):
     return tuple(m), ra, rb
 
 
-_DP_Q = [(1, 1), (1, 2), (2, 1), (2, 4), (3, 8), (5, 32), (10, 8)]
-_DP_T = [(a, d) for a in (1, 2, 3, 4, 6, 10) for d in (1, 2, 3, 8, 32, 64)]
+# asymmetric ports: port B wider than port A, narrower than A, write nets wider / narrower than the read nets
+_DP_ASYM_Q = [(1, 1, 1, 3, 3), (2, 4, 4, 8, 8), (2, 8, 8, 4, 4), (3, 8, 16, 16, 8), (2, 1, 1, 32, 32), (4, 32, 32, 64, 64)]
+_DP_ASYM_T = _DP_ASYM_Q + [(a, ra, wa, rb, wb) for a in (1, 3) for ra in (1, 4, 16) for wa in (1, 4, 16) for rb in (2, 8, 33) for wb in (2, 8, 33)]
+_DP_Q = [(1, 1), (1, 2), (2, 1), (2, 4), (3, 8), (5, 32), (10, 8)] + _DP_ASYM_Q
+_DP_T = [(a, d) for a in (1, 2, 3, 4, 6, 10) for d in (1, 2, 3, 8, 32, 64)] + _DP_ASYM_T
 add('DualPortSynchronousMemory', _dp_ports, _dp_make, lambda c: ((0,) * (1 << c[0]), 0, 0), _dp_nxt,
-    lambda c, s, v: {'readdata_a': s[1], 'readdata_b': s[2]}, _DP_Q, _DP_T, [(1, 1)], [(1, 1), (1, 2), (2, 1)],
+    lambda c, s, v: {'readdata_a': s[1], 'readdata_b': s[2]}, _DP_Q, _DP_T, [(1, 1), (1, 1, 1, 2, 2)], [(1, 1), (1, 2), (2, 1), (1, 1, 1, 2, 2), (1, 2, 2, 1, 1), (1, 1, 2, 2, 1)],
     domain=_dp_domain, controls=lambda c: ['write_a', 'write_b'], tags=('memory',))
 
 
